@@ -58,8 +58,17 @@ reg("C08", "proof",
     "The composition over whole pipelines and the numeric step operations are covered by the bounded stand-in.",
     assumptions=["step operations are deterministic functions of their arguments' contents (C18); cross-checking does not alter "
                  "disparities (C07 frame), so the sequential left-then-right validation equals the simultaneous one"])
-for _pid in ["C01", "C02", "C04", "C05", "C07", "C09", "C10", "C12", "C13", "C15", "C16", "C17", "C18", "C19", "C20"]:
+reg("C18", "proof",
+    "thread-schedule independence: for every prange loop of loop_refinement, compute_ambiguity(+sampled), compute_risk(+sampled) "
+    "and compute_interval_bounds, two distinct iterations never write the same cell, never read a cell the other writes, and "
+    "carry no scalar across iterations (race-freedom obligations over the access log of the symbolic execution; values are not "
+    "modelled for the confidence kernels: frame mode); every subscript whose index is modelled is in bounds. "
+    "Repetition on one machine, other pipelines on other machines, input datasets untouched: bounded stand-in.",
+    trusted=["numba executes each prange iteration atomically w.r.t. its private arrays; numpy calls inside kernels are deterministic",
+             "frame mode: results of numpy computations are unconstrained private values; reads/writes at indices computed from them "
+             "are treated as touching any cell (no bounds obligation can be stated for them)"])
+for _pid in ["C01", "C02", "C04", "C05", "C07", "C09", "C10", "C12", "C13", "C15", "C16", "C17", "C19", "C20"]:
     reg(_pid, "other", BOUNDED_ONLY)
 
-FIX_COMMITS = ['c8eaaa2', '39f21c5', '00e445f', 'cea0f99', '62af5fc', 'd016e8e', 'a2233a1', '3bbb417', 'bdac312', '35f4fa5', 'bcaad45', '42d03b2', 'fd4d6b2', '756db6e', 'abbd602', 'a62df76']
+FIX_COMMITS = ['c8eaaa2', '39f21c5', '00e445f', 'cea0f99', '62af5fc', 'd016e8e', 'a2233a1', '3bbb417', 'bdac312', '35f4fa5', 'bcaad45', '42d03b2', 'fd4d6b2', '756db6e', 'abbd602', 'a62df76', 'bf98cec', '1944eb0']
 NOT_YET = {}
